@@ -150,7 +150,7 @@ Print Assumptions Compose_C04_mode_equivalence_closed.
 Theorem Compose_C09_consistent_from_C02 :
   forall (H : bytes -> bytes), (forall x, is_hex64 (H x) = true) ->
   forall (base : N -> creq) (man : N -> N) (ppf : canon_p_t -> N -> pp_result) (ccf : canon_c_t -> cc_result)
-         (direct_mode : N -> bool) (lng : N -> Model.Stats.lang) (upd mok cab : N -> bool),
+         (direct_mode : N -> bool) (lng : N -> Model.Stats.lang) (upd mok cab ppan cpan : N -> bool),
     (forall t, wf_c the_spec (req base man ppf t) = true) ->
     (forall t, wf_p the_spec (base t) = true) ->
     (forall t t', extra_pp_ok (req base man ppf t) (req base man ppf t') = true) ->
@@ -160,42 +160,67 @@ Theorem Compose_C09_consistent_from_C02 :
                   encode_pp H the_spec (base t) = encode_pp H the_spec (base t')) ->
     (forall t t', H (input (base t)) = H (input (base t')) -> input (base t) = input (base t')) ->
     (forall t t', H (time_pre (base t)) = H (time_pre (base t')) -> time_pre (base t) = time_pre (base t')) ->
-    Proofs.ReqSM.consistent (world_of H base man ppf ccf direct_mode lng upd mok cab).
+    Proofs.ReqSM.consistent (world_of H base man ppf ccf direct_mode lng upd mok cab ppan cpan).
 Proof. exact consistent_from_C02. Qed.
 Print Assumptions Compose_C09_consistent_from_C02.
 
 (* C09_faults_transparent without `consistent`: [C02_world_ok H base man ppf] is the conjunction of the eight
-   hypotheses above (Proofs/ComposeC09.v). *)
+   hypotheses above (Proofs/ComposeC09.v).  The world's panic flags (o_pp_panics / o_c_panics := ppan t / cpan t) are
+   unconstrained; [calm f (w t)] — no storage call and none of sccache's own steps panics on the way — is the
+   hypothesis C09_faults_transparent itself carries. *)
 Theorem Compose_C09_faults_transparent_closed :
   forall (H : bytes -> bytes) (base : N -> creq) (man : N -> N) (ppf : canon_p_t -> N -> pp_result)
-         (ccf : canon_c_t -> cc_result) (direct_mode : N -> bool) (lng : N -> Model.Stats.lang) (upd mok cab : N -> bool),
+         (ccf : canon_c_t -> cc_result) (direct_mode : N -> bool) (lng : N -> Model.Stats.lang)
+         (upd mok cab ppan cpan : N -> bool),
     C02_world_ok H base man ppf ->
-    let w := world_of H base man ppf ccf direct_mode lng upd mok cab in
+    let w := world_of H base man ppf ccf direct_mode lng upd mok cab ppan cpan in
     forall (st : Model.ReqSM.cstate) (t : N) (f : Model.ReqSM.faults) (cl : Model.ReqSM.req_class)
            (cc : Model.ReqSM.cache_control),
       Proofs.ReqSM.Inv w st -> Proofs.ReqSM.sane (w t) -> Model.ReqSM.f_outdir_ok f = true ->
+      Proofs.ReqSM.calm f (w t) ->
       Proofs.ReqSM.transparent (w t) (snd (fst (Model.ReqSM.request f cl cc (w t) st))).
 Proof. exact faults_transparent_closed_b. Qed.
 Print Assumptions Compose_C09_faults_transparent_closed.
 
+(* C09_internal_fault_reported without `consistent`: without [calm] the request is still answered — with the
+   compiler's own result, or with a reported fatal error, never with a wrong result *)
+Theorem Compose_C09_internal_fault_reported_closed :
+  forall (H : bytes -> bytes) (base : N -> creq) (man : N -> N) (ppf : canon_p_t -> N -> pp_result)
+         (ccf : canon_c_t -> cc_result) (direct_mode : N -> bool) (lng : N -> Model.Stats.lang)
+         (upd mok cab ppan cpan : N -> bool),
+    C02_world_ok H base man ppf ->
+    let w := world_of H base man ppf ccf direct_mode lng upd mok cab ppan cpan in
+    forall (st : Model.ReqSM.cstate) (t : N) (f : Model.ReqSM.faults) (cl : Model.ReqSM.req_class)
+           (cc : Model.ReqSM.cache_control),
+      Proofs.ReqSM.Inv w st -> Proofs.ReqSM.sane (w t) -> Model.ReqSM.f_outdir_ok f = true ->
+      Proofs.ReqSM.transparent (w t) (snd (fst (Model.ReqSM.request f cl cc (w t) st)))
+      \/ Model.ReqSM.r_client (snd (fst (Model.ReqSM.request f cl cc (w t) st))) = Model.ReqSM.CFatal.
+Proof. exact internal_fault_reported_closed_b. Qed.
+Print Assumptions Compose_C09_internal_fault_reported_closed.
+
+(* C09_history_transparent without `consistent`.  [history_ok] (Proofs/ReqSM.v) asks of every request of the history:
+   f_outdir_ok f = true -> calm f (w t) -> transparent, and f_outdir_ok f = true -> transparent \/ CFatal. *)
 Theorem Compose_C09_history_transparent_closed :
   forall (H : bytes -> bytes) (base : N -> creq) (man : N -> N) (ppf : canon_p_t -> N -> pp_result)
-         (ccf : canon_c_t -> cc_result) (direct_mode : N -> bool) (lng : N -> Model.Stats.lang) (upd mok cab : N -> bool),
+         (ccf : canon_c_t -> cc_result) (direct_mode : N -> bool) (lng : N -> Model.Stats.lang)
+         (upd mok cab ppan cpan : N -> bool),
     C02_world_ok H base man ppf ->
-    let w := world_of H base man ppf ccf direct_mode lng upd mok cab in
+    let w := world_of H base man ppf ccf direct_mode lng upd mok cab ppan cpan in
     forall ss : list Model.ReqSM.step,
       (forall t, Proofs.ReqSM.sane (w t)) -> Proofs.ReqSM.history_ok w Model.ReqSM.empty_cache ss.
 Proof. exact history_transparent_closed_b. Qed.
 Print Assumptions Compose_C09_history_transparent_closed.
 
-(* C09_repopulates without `consistent`: after the faults stop, a fault-free request re-populates and the next is a hit *)
+(* C09_repopulates without `consistent` (with its [calm_oracle]): after the faults stop, a fault-free request re-populates and the next is a hit *)
 Theorem Compose_C09_repopulates_closed :
   forall (H : bytes -> bytes) (base : N -> creq) (man : N -> N) (ppf : canon_p_t -> N -> pp_result)
-         (ccf : canon_c_t -> cc_result) (direct_mode : N -> bool) (lng : N -> Model.Stats.lang) (upd mok cab : N -> bool),
+         (ccf : canon_c_t -> cc_result) (direct_mode : N -> bool) (lng : N -> Model.Stats.lang)
+         (upd mok cab ppan cpan : N -> bool),
     C02_world_ok H base man ppf ->
-    let w := world_of H base man ppf ccf direct_mode lng upd mok cab in
+    let w := world_of H base man ppf ccf direct_mode lng upd mok cab ppan cpan in
     forall (st : Model.ReqSM.cstate) (t : N),
-      Proofs.ReqSM.Inv w st -> Proofs.ReqSM.sane (w t) -> Model.ReqSM.cs_ro st = false ->
+      Proofs.ReqSM.Inv w st -> Proofs.ReqSM.sane (w t) -> Proofs.ReqSM.calm_oracle (w t) ->
+      Model.ReqSM.cs_ro st = false ->
       Model.ReqSM.o_pp_status (w t) = 0 -> Model.ReqSM.o_c_status (w t) = 0 -> Model.ReqSM.o_cacheable (w t) = true ->
       let '(st1, r1, _) := Model.ReqSM.request Model.ReqSM.no_faults Model.ReqSM.QCompile Model.ReqSM.CCDefault (w t) st in
       let '(st2, r2, _) := Model.ReqSM.request Model.ReqSM.no_faults Model.ReqSM.QCompile Model.ReqSM.CCDefault (w t) st1 in
@@ -334,16 +359,18 @@ Example Compose_C04_example :
 Proof. exact x_instance. Qed.
 
 (* C09 ⟵ C02: a world of three units (two differ in an argument, the third in the input file) meeting every hypothesis
-   of Compose_C09_consistent_from_C02, with a sane compiler and three different result keys. *)
+   of Compose_C09_consistent_from_C02, with a sane compiler, no panic inside the server ([calm_oracle]) and three
+   different result keys. *)
 Example Compose_C09_example :
   C02_world_ok toyH C09Ex.y_base C09Ex.y_man C09Ex.y_ppf /\
-  (forall t, Proofs.ReqSM.sane (C09Ex.y_world t)) /\
+  (forall t, Proofs.ReqSM.sane (C09Ex.y_world t)) /\ (forall t, Proofs.ReqSM.calm_oracle (C09Ex.y_world t)) /\
   Model.ReqSM.o_key (C09Ex.y_world 0) <> Model.ReqSM.o_key (C09Ex.y_world 1) /\
   Model.ReqSM.o_key (C09Ex.y_world 0) <> Model.ReqSM.o_key (C09Ex.y_world 2) /\
   Model.ReqSM.o_key (C09Ex.y_world 1) <> Model.ReqSM.o_key (C09Ex.y_world 2).
 Proof.
-  destruct C09Ex.y_instance as (A0 & A1 & A2 & A3 & A4 & A5 & A6 & A7 & A8 & A9).
-  split; [exact (conj A0 (conj A1 (conj A2 (conj A3 (conj A4 (conj A5 (conj A6 A7)))))))|]. split; [exact A8 | exact A9].
+  destruct C09Ex.y_instance as (A0 & A1 & A2 & A3 & A4 & A5 & A6 & A7 & A8 & A9 & A10).
+  split; [exact (conj A0 (conj A1 (conj A2 (conj A3 (conj A4 (conj A5 (conj A6 A7)))))))|].
+  split; [exact A8 | split; [exact A9 | exact A10]].
 Qed.
 
 (* C03 ⟵ C02: C03's own example requests meet every hypothesis of Compose_C03_key_of_is_C02_key (r0 and the unrelated
